@@ -197,7 +197,8 @@ class EvHarness(Harness):
 REGISTRY = {}
 for dw in (8, 32):
     menu = [("pulse",), ("rising",), ("falling",), ("level",), ("pulse", "level"), ("rising", "falling"), ("pulse", "pulse"),
-            ("falling", "pulse", "level"), ("pulse", "rising", "falling")]
+            ("level", "pulse"), ("level", "falling"),                    # a level source BEFORE a latched one (bit positions vs clear wiring)
+            ("falling", "pulse", "level"), ("pulse", "rising", "falling"), ("level", "rising", "pulse")]
     for kinds in menu:
         tier = "quick" if len(kinds) < 3 else "thorough"
         nm = f"EventManager({','.join(kinds)}),csr{dw}"
